@@ -61,16 +61,18 @@ pub struct Snap {
     pub req_s: u128,
     pub history: Vec<Hist>,
     /// the unbond history decoded from the hub's raw storage
-    pub raw_history: Vec<Hist>,
+    pub raw_history: Option<Vec<Hist>>,
     pub requests: BTreeMap<String, Vec<(u64, u128, u128)>>,
     /// the same wait list decoded from the hub's raw storage (all addresses, not only the known ones)
-    pub raw_requests: BTreeMap<String, Vec<(u64, u128, u128)>>,
+    pub raw_requests: Option<BTreeMap<String, Vec<(u64, u128, u128)>>>,
     pub bsei: TokSnap,
     pub stsei: TokSnap,
     pub hub_bank: u128,
     pub delegations: BTreeMap<String, u128>,
     pub total_delegated: u128,
     pub registry: Vec<(String, u128)>,
+    /// validator addresses decoded from the registry's raw storage (None: layout not recognised)
+    pub raw_registry: Option<Vec<String>>,
     // reward contract
     pub global_index: u128,
     pub reward_total_balance: u128,
@@ -183,7 +185,8 @@ pub fn all_history(w: &World, errs: &mut Vec<String>) -> Vec<Hist> {
 
 /// Decode the hub's v2 wait list straight from storage: keys are
 /// len-prefixed("v2_wait") ++ len-prefixed(json(address)) ++ json(batch id), values json {bsei_amount, stsei_amount}.
-pub fn raw_wait_list(w: &World) -> BTreeMap<String, Vec<(u64, u128, u128)>> {
+/// `None` when an entry under the prefix does not decode (a layout this decoder does not know: nothing is judged then).
+pub fn raw_wait_list(w: &World) -> Option<BTreeMap<String, Vec<(u64, u128, u128)>>> {
     let mut out: BTreeMap<String, Vec<(u64, u128, u128)>> = BTreeMap::new();
     let prefix: &[u8] = &[0, 7, b'v', b'2', b'_', b'w', b'a', b'i', b't'];
     if let Some(st) = w.stores.get(HUB) {
@@ -194,20 +197,23 @@ pub fn raw_wait_list(w: &World) -> BTreeMap<String, Vec<(u64, u128, u128)>> {
             let rest = &k[prefix.len()..];
             let l = ((rest[0] as usize) << 8) | rest[1] as usize;
             if rest.len() < 2 + l {
-                continue;
+                return None;
             }
             let addr: String = match serde_json::from_slice(&rest[2..2 + l]) {
                 Ok(a) => a,
-                Err(_) => continue,
+                Err(_) => return None,
             };
             let batch: u64 = match std::str::from_utf8(&rest[2 + l..]).ok().and_then(|x| x.parse().ok()) {
                 Some(b) => b,
-                None => continue,
+                None => return None,
             };
             let val: serde_json::Value = match serde_json::from_slice(v) {
                 Ok(x) => x,
-                Err(_) => continue,
+                Err(_) => return None,
             };
+            if val.get("bsei_amount").is_none() || val.get("stsei_amount").is_none() {
+                return None;
+            }
             let g = |f: &str| val.get(f).and_then(|x| x.as_str()).and_then(|x| x.parse::<u128>().ok()).unwrap_or(0);
             out.entry(addr).or_default().push((batch, g("bsei_amount"), g("stsei_amount")));
         }
@@ -215,11 +221,11 @@ pub fn raw_wait_list(w: &World) -> BTreeMap<String, Vec<(u64, u128, u128)>> {
     for v in out.values_mut() {
         v.sort();
     }
-    out
+    Some(out)
 }
 
 /// Decode the hub's unbond history straight from storage: keys are len-prefixed("history_map") ++ big-endian batch id.
-pub fn raw_history(w: &World) -> Vec<Hist> {
+pub fn raw_history(w: &World) -> Option<Vec<Hist>> {
     use std::str::FromStr;
     let mut out = vec![];
     let mut prefix: Vec<u8> = vec![0, 11];
@@ -231,8 +237,13 @@ pub fn raw_history(w: &World) -> Vec<Hist> {
             }
             let val: serde_json::Value = match serde_json::from_slice(v) {
                 Ok(x) => x,
-                Err(_) => continue,
+                Err(_) => return None,
             };
+            for f in ["batch_id", "time", "bsei_amount", "bsei_applied_exchange_rate", "bsei_withdraw_rate", "stsei_amount", "stsei_applied_exchange_rate", "stsei_withdraw_rate", "released"] {
+                if val.get(f).is_none() {
+                    return None;
+                }
+            }
             let n = |f: &str| val.get(f).and_then(|x| x.as_str()).and_then(|x| x.parse::<u128>().ok()).unwrap_or(0);
             let d = |f: &str| val.get(f).and_then(|x| x.as_str()).and_then(|x| Decimal::from_str(x).ok()).map(at).unwrap_or(0);
             out.push(Hist {
@@ -249,7 +260,26 @@ pub fn raw_history(w: &World) -> Vec<Hist> {
         }
     }
     out.sort_by_key(|h| h.batch_id);
-    out
+    Some(out)
+}
+
+/// Decode the registry's validator map straight from storage: keys are len-prefixed("validators_registry") ++ address bytes,
+/// values json {address}.
+pub fn raw_registry(w: &World) -> Option<Vec<String>> {
+    let mut prefix: Vec<u8> = vec![0, 19];
+    prefix.extend_from_slice(b"validators_registry");
+    let mut out = vec![];
+    if let Some(st) = w.stores.get(REGISTRY) {
+        for (k, v) in st.0.iter() {
+            if !k.starts_with(&prefix) {
+                continue;
+            }
+            let val: serde_json::Value = serde_json::from_slice(v).ok()?;
+            out.push(val.get("address")?.as_str()?.to_string());
+        }
+    }
+    out.sort();
+    Some(out)
 }
 
 pub fn take(w: &World) -> Snap {
@@ -379,6 +409,7 @@ pub fn take(w: &World) -> Snap {
         raw_history,
         requests,
         raw_requests,
+        raw_registry: raw_registry(w),
         bsei,
         stsei,
         hub_bank: w.bal(HUB, USEI),
